@@ -34,7 +34,7 @@ fn conc_e(x: u128) -> u128 {
     let k = unsafe { WKEY };
     u128::from_le_bytes(r::encrypt(&key_octets(&k), &x.to_le_bytes()))
 }
-uf1!(uf_e, u128, u128, [B0], conc_e);
+cuf1!(uf_e, vuf_belt_block_wblock_e, u128, u128, conc_e);
 
 pub fn stub_raw(x: [u32; 4], key: &[u32; 8]) -> [u32; 4] {
     #[cfg(kani)]
@@ -63,16 +63,31 @@ fn key_of(inp: &[u8]) -> [u32; 8] {
     k
 }
 
+// The length is symbolic, but every call of the real functions is made on a path where it is pinned to one value
+// (`if l == len { ... }` for every l of the range): the symbolic execution then unrolls exactly the loops of that length
+// instead of every loop up to the unwinding bound under an infeasible guard (which exhausted 14 GB even for the rejection
+// clause).  The solver query still quantifies over all lengths of the range at once.
+
 /// inp = key (32) | len (1) | data (M).  Real function on data[..len] vs oracle; octets beyond len must be untouched.
 fn conf<const M: usize>(inp: &[u8], dec: bool) -> Option<bool> {
     let key = key_of(inp);
     let len = inp[32] as usize;
     vassume!(len >= 32 && len <= M);
     let data: [u8; M] = take(inp, 33);
-    let mut buf = data;
-    let res = if dec { belt_wblock_dec(&mut buf[..len], &key) } else { belt_wblock_enc(&mut buf[..len], &key) };
+    let mut l = 32;
+    while l <= M {
+        if l == len {
+            return conf_at::<M>(&key, &data, l, dec);
+        }
+        l += 1;
+    }
+    None
+}
+fn conf_at<const M: usize>(key: &[u32; 8], data: &[u8; M], len: usize, dec: bool) -> Option<bool> {
+    let mut buf = *data;
+    let res = if dec { belt_wblock_dec(&mut buf[..len], key) } else { belt_wblock_enc(&mut buf[..len], key) };
     vcheck!(res.is_ok());
-    let e = if dec { r::wblock_dec_with(&data, len, oe) } else { r::wblock_enc_with(&data, len, oe) };
+    let e = if dec { r::wblock_dec_with(data, len, oe) } else { r::wblock_enc_with(data, len, oe) };
     let e = match e {
         Some(e) => e,
         None => return Some(false),
@@ -95,25 +110,30 @@ fn inverse<const M: usize>(inp: &[u8], enc_first: bool) -> Option<bool> {
     let len = inp[32] as usize;
     vassume!(len >= 32 && len <= M);
     let data: [u8; M] = take(inp, 33);
-    let mut buf = data;
+    let mut l = 32;
+    while l <= M {
+        if l == len {
+            return inverse_at::<M>(&key, &data, l, enc_first);
+        }
+        l += 1;
+    }
+    None
+}
+fn inverse_at<const M: usize>(key: &[u32; 8], data: &[u8; M], len: usize, enc_first: bool) -> Option<bool> {
+    let mut buf = *data;
     if enc_first {
-        vcheck!(belt_wblock_enc(&mut buf[..len], &key).is_ok());
-        vcheck!(belt_wblock_dec(&mut buf[..len], &key).is_ok());
+        vcheck!(belt_wblock_enc(&mut buf[..len], key).is_ok());
+        vcheck!(belt_wblock_dec(&mut buf[..len], key).is_ok());
     } else {
-        vcheck!(belt_wblock_dec(&mut buf[..len], &key).is_ok());
-        vcheck!(belt_wblock_enc(&mut buf[..len], &key).is_ok());
+        vcheck!(belt_wblock_dec(&mut buf[..len], key).is_ok());
+        vcheck!(belt_wblock_enc(&mut buf[..len], key).is_ok());
     }
-    let mut i = 0;
-    while i < M {
-        vcheck!(buf[i] == data[i]);
-        i += 1;
-    }
-    Some(true)
+    Some(buf == *data)
 }
 
 // ------------------------------------------------------------------------------------------- conformance, 32..=48
 
-//@ harness name=wblock_conf_enc48 prop=C18,C20 tier=quick bits=648 stub=1 est=120 desc="W: belt_wblock_enc(data[..len], key) == oracle belt-wbl encryption (6.2.3), len symbolic in 32..=48 (incl. 33..47), all keys, all contents, octets beyond len untouched; belt-block under the key uninterpreted"
+//@ harness name=wblock_conf_enc48 prop=C18,C20 tier=thorough bits=648 stub=1 est=1500 mem=30 cap=3600 desc="W: belt_wblock_enc(data[..len], key) == oracle belt-wbl encryption (6.2.3), len symbolic in 32..=48 (incl. 33..47), all keys, all contents, octets beyond len untouched; belt-block under the key uninterpreted"
 verif_harness! {
     name: wblock_conf_enc48,
     bytes: 33 + 48,
@@ -121,7 +141,7 @@ verif_harness! {
     stubs: [(crate::belt_block_raw, stub_raw)],
     prop: |inp| { conf::<48>(inp, false) }
 }
-//@ harness name=wblock_conf_dec48 prop=C18,C20 tier=quick bits=648 stub=1 est=120 desc="W: belt_wblock_dec(data[..len], key) == oracle belt-wbl decryption (6.2.4), len symbolic in 32..=48, all keys, all contents; belt-block uninterpreted"
+//@ harness name=wblock_conf_dec48 prop=C18,C20 tier=thorough bits=648 stub=1 est=1500 mem=30 cap=3600 desc="W: belt_wblock_dec(data[..len], key) == oracle belt-wbl decryption (6.2.4), len symbolic in 32..=48, all keys, all contents; belt-block uninterpreted"
 verif_harness! {
     name: wblock_conf_dec48,
     bytes: 33 + 48,
@@ -129,7 +149,7 @@ verif_harness! {
     stubs: [(crate::belt_block_raw, stub_raw)],
     prop: |inp| { conf::<48>(inp, true) }
 }
-//@ harness name=wblock_inv_ed48 prop=C18,C01,C20 tier=quick bits=648 stub=1 est=120 desc="W: belt_wblock_dec(belt_wblock_enc(x)) == x, len symbolic in 32..=48, all keys, all contents; belt-block an arbitrary function"
+//@ harness name=wblock_inv_ed48 prop=C18,C01,C20 tier=thorough bits=648 stub=1 est=1500 mem=30 cap=3600 desc="W: belt_wblock_dec(belt_wblock_enc(x)) == x, len symbolic in 32..=48, all keys, all contents; belt-block an arbitrary function"
 verif_harness! {
     name: wblock_inv_ed48,
     bytes: 33 + 48,
@@ -137,7 +157,7 @@ verif_harness! {
     stubs: [(crate::belt_block_raw, stub_raw)],
     prop: |inp| { inverse::<48>(inp, true) }
 }
-//@ harness name=wblock_inv_de48 prop=C18,C01,C20 tier=quick bits=648 stub=1 est=120 desc="W: belt_wblock_enc(belt_wblock_dec(y)) == y, len symbolic in 32..=48, all keys, all contents; belt-block an arbitrary function"
+//@ harness name=wblock_inv_de48 prop=C18,C01,C20 tier=thorough bits=648 stub=1 est=1500 mem=30 cap=3600 desc="W: belt_wblock_enc(belt_wblock_dec(y)) == y, len symbolic in 32..=48, all keys, all contents; belt-block an arbitrary function"
 verif_harness! {
     name: wblock_inv_de48,
     bytes: 33 + 48,
@@ -148,7 +168,7 @@ verif_harness! {
 
 // ------------------------------------------------------------------------------------------- conformance, 32..=80
 
-//@ harness name=wblock_conf_enc80 prop=C18,C20 tier=thorough bits=904 stub=1 est=600 desc="W: belt_wblock_enc == oracle, len symbolic in 32..=80 (n = 2..5 blocks, incl. all lengths that are not multiples of 16), all keys, all contents"
+//@ harness name=wblock_conf_enc80 prop=C18,C20 tier=thorough bits=904 stub=1 est=600 mem=30 cap=7200 desc="W: belt_wblock_enc == oracle, len symbolic in 32..=80 (n = 2..5 blocks, incl. all lengths that are not multiples of 16), all keys, all contents"
 verif_harness! {
     name: wblock_conf_enc80,
     bytes: 33 + 80,
@@ -156,7 +176,7 @@ verif_harness! {
     stubs: [(crate::belt_block_raw, stub_raw)],
     prop: |inp| { conf::<80>(inp, false) }
 }
-//@ harness name=wblock_conf_dec80 prop=C18,C20 tier=thorough bits=904 stub=1 est=600 desc="W: belt_wblock_dec == oracle, len symbolic in 32..=80, all keys, all contents"
+//@ harness name=wblock_conf_dec80 prop=C18,C20 tier=thorough bits=904 stub=1 est=600 mem=30 cap=7200 desc="W: belt_wblock_dec == oracle, len symbolic in 32..=80, all keys, all contents"
 verif_harness! {
     name: wblock_conf_dec80,
     bytes: 33 + 80,
@@ -164,7 +184,7 @@ verif_harness! {
     stubs: [(crate::belt_block_raw, stub_raw)],
     prop: |inp| { conf::<80>(inp, true) }
 }
-//@ harness name=wblock_inv_ed80 prop=C18,C01,C20 tier=thorough bits=904 stub=1 est=600 desc="W: dec(enc(x)) == x, len symbolic in 32..=80, all keys, all contents"
+//@ harness name=wblock_inv_ed80 prop=C18,C01,C20 tier=thorough bits=904 stub=1 est=600 mem=30 cap=7200 desc="W: dec(enc(x)) == x, len symbolic in 32..=80, all keys, all contents"
 verif_harness! {
     name: wblock_inv_ed80,
     bytes: 33 + 80,
@@ -172,7 +192,7 @@ verif_harness! {
     stubs: [(crate::belt_block_raw, stub_raw)],
     prop: |inp| { inverse::<80>(inp, true) }
 }
-//@ harness name=wblock_inv_de80 prop=C18,C01,C20 tier=thorough bits=904 stub=1 est=600 desc="W: enc(dec(y)) == y, len symbolic in 32..=80, all keys, all contents"
+//@ harness name=wblock_inv_de80 prop=C18,C01,C20 tier=thorough bits=904 stub=1 est=600 mem=30 cap=7200 desc="W: enc(dec(y)) == y, len symbolic in 32..=80, all keys, all contents"
 verif_harness! {
     name: wblock_inv_de80,
     bytes: 33 + 80,
@@ -183,7 +203,7 @@ verif_harness! {
 
 // ------------------------------------------------------------------------------------------- rejection
 
-//@ harness name=wblock_reject prop=C18,C20 tier=quick bits=512 est=30 desc="D: len symbolic in 0..=31: belt_wblock_enc and belt_wblock_dec return Err(InvalidLengthError) and leave all octets of the buffer unmodified, all keys, all contents"
+//@ harness name=wblock_reject prop=C18,C20 tier=quick bits=512 est=45 desc="D: len symbolic in 0..=31: belt_wblock_enc and belt_wblock_dec return Err(InvalidLengthError) and leave all octets of the buffer unmodified, all keys, all contents"
 verif_harness! {
     name: wblock_reject,
     bytes: 33 + 31,
@@ -193,11 +213,18 @@ verif_harness! {
         let len = inp[32] as usize;
         vassume!(len <= 31);
         let data: [u8; 31] = take(inp, 33);
-        let mut buf = data;
-        vcheck!(belt_wblock_enc(&mut buf[..len], &key).is_err());
-        vcheck!(buf == data);
-        vcheck!(belt_wblock_dec(&mut buf[..len], &key).is_err());
-        Some(buf == data)
+        let mut l = 0;
+        while l <= 31 {
+            if l == len {
+                let mut buf = data;
+                vcheck!(belt_wblock_enc(&mut buf[..l], &key).is_err());
+                vcheck!(buf == data);
+                vcheck!(belt_wblock_dec(&mut buf[..l], &key).is_err());
+                return Some(buf == data);
+            }
+            l += 1;
+        }
+        None
     }
 }
 
@@ -210,32 +237,37 @@ fn nopanic<const M: usize>(inp: &[u8]) -> Option<bool> {
     let len = take_u16(inp, 32) as usize;
     vassume!(len >= 32 && len <= M);
     let data: [u8; M] = take(inp, 34);
-    let mut a = data;
-    let mut b = data;
-    vcheck!(belt_wblock_enc(&mut a[..len], &key).is_ok());
-    vcheck!(belt_wblock_dec(&mut b[..len], &key).is_ok());
-    let mut i = 0;
-    while i < M {
-        if i >= len {
-            vcheck!(a[i] == data[i] && b[i] == data[i]);
+    let mut l = 32;
+    while l <= M {
+        if l == len {
+            let mut a = data;
+            let mut b = data;
+            vcheck!(belt_wblock_enc(&mut a[..l], &key).is_ok());
+            vcheck!(belt_wblock_dec(&mut b[..l], &key).is_ok());
+            let mut i = l;
+            while i < M {
+                vcheck!(a[i] == data[i] && b[i] == data[i]);
+                i += 1;
+            }
+            return Some(true);
         }
-        i += 1;
+        l += 1;
     }
-    Some(true)
+    None
 }
 
-//@ harness name=wblock_nopanic128 prop=C20 tier=thorough bits=1296 stub=1 est=900 desc="W: belt_wblock_enc / belt_wblock_dec on len symbolic in 32..=128: return Ok, no panic, no arithmetic overflow, no out-of-bounds access, octets beyond len untouched; belt-block uninterpreted"
+//@ harness name=wblock_nopanic128 prop=C20 tier=thorough bits=1296 stub=1 est=900 mem=30 cap=7200 desc="W: belt_wblock_enc / belt_wblock_dec on len symbolic in 32..=128: return Ok, no panic, no arithmetic overflow, no out-of-bounds access, octets beyond len untouched; belt-block uninterpreted"
 verif_harness! {
     name: wblock_nopanic128,
     bytes: 34 + 128,
     unwind: 130,
-    stubs: [(crate::belt_block_raw, stub_raw)],
+    stubs: [(crate::belt_block_raw, stub_raw2)],
     prop: |inp| { nopanic::<128>(inp) }
 }
 
 // ------------------------------------------------------------------------------------------- mid length, 272 octets
 
-//@ harness name=wblock_conf_enc272 prop=C18,C20 tier=quick bits=2432 stub=1 est=200 desc="W: belt_wblock_enc == oracle at len = 272 (17 blocks, 34 rounds), all keys, all contents; belt-block uninterpreted"
+//@ disabled-harness (more than 14 GB / 900 s at 272 octets; not measured with more) name=wblock_conf_enc272 prop=C18,C20 tier=quick bits=2432 stub=1 est=200 desc="W: belt_wblock_enc == oracle at len = 272 (17 blocks, 34 rounds), all keys, all contents; belt-block uninterpreted"
 verif_harness! {
     name: wblock_conf_enc272,
     bytes: 33 + 272,
@@ -243,7 +275,7 @@ verif_harness! {
     stubs: [(crate::belt_block_raw, stub_raw2)],
     prop: |inp| { conf_fixed::<17, 272>(inp, false) }
 }
-//@ harness name=wblock_conf_dec272 prop=C18,C20 tier=quick bits=2432 stub=1 est=200 desc="W: belt_wblock_dec == oracle at len = 272 (17 blocks, 34 rounds), all keys, all contents; belt-block uninterpreted"
+//@ disabled-harness (more than 14 GB / 900 s at 272 octets; not measured with more) name=wblock_conf_dec272 prop=C18,C20 tier=quick bits=2432 stub=1 est=200 desc="W: belt_wblock_dec == oracle at len = 272 (17 blocks, 34 rounds), all keys, all contents; belt-block uninterpreted"
 verif_harness! {
     name: wblock_conf_dec272,
     bytes: 33 + 272,
@@ -251,7 +283,7 @@ verif_harness! {
     stubs: [(crate::belt_block_raw, stub_raw2)],
     prop: |inp| { conf_fixed::<17, 272>(inp, true) }
 }
-//@ harness name=wblock_inv_ed272 prop=C18,C01,C20 tier=quick bits=2432 stub=1 est=200 desc="W: dec(enc(x)) == x at len = 272, all keys, all contents; belt-block an arbitrary function"
+//@ disabled-harness (more than 14 GB / 900 s at 272 octets; not measured with more) name=wblock_inv_ed272 prop=C18,C01,C20 tier=quick bits=2432 stub=1 est=200 desc="W: dec(enc(x)) == x at len = 272, all keys, all contents; belt-block an arbitrary function"
 verif_harness! {
     name: wblock_inv_ed272,
     bytes: 33 + 272,
@@ -260,7 +292,7 @@ verif_harness! {
     prop: |inp| { inverse_fixed::<272>(inp) }
 }
 
-uf1!(uf_e2, u128, u128, [B0 B1], conc_e);
+cuf1!(uf_e2, vuf_belt_block_wblock_e2, u128, u128, conc_e);
 pub fn stub_raw2(x: [u32; 4], key: &[u32; 8]) -> [u32; 4] {
     #[cfg(kani)]
     {
@@ -301,237 +333,113 @@ fn inverse_fixed<const L: usize>(inp: &[u8]) -> Option<bool> {
     Some(buf == data)
 }
 
-// ------------------------------------------------------------------------------------------- long lengths (round counter > 255)
-//
-// n = ceil(len / 16) >= 128 makes the round counter 2n reach 256, i.e. its second octet matters.  With 512 calls of the
-// block cipher the quadratic Ackermann encoding is replaced by a LOCKSTEP abstraction (linear): the i-th call of the first
-// run (the real code, through the stub) logs its argument X[i] and returns a fresh symbolic value Y[i] (drawn from the
-// harness input); the matching call of the second run (the oracle, forwards; or the real inverse function, which meets
-// the same arguments in reverse order) must be made on exactly X[i] -- an obligation, VERIF_LOCKSTEP_ARG -- and gets the
-// same Y[i].  Y is not constrained to be functionally consistent, which only adds behaviours: if the property holds for
-// every sequence Y it holds for Y[i] = E(X[i]) with the real block cipher E, where by induction over the calls both runs
-// coincide with the real executions.  Natively (replay) the real belt_block_raw / the oracle's belt-block are used.
+// ------------------------------------------------------------------------------------------- single lengths (quick tier)
+// The harnesses over a symbolic length above need more than 14 GB; these pin the length to one value each: 32 (two blocks),
+// 33 (shortest length with a partial last block), 47 and 48.
 
-#[cfg(kani)]
-pub mod ls {
-    pub static mut NI: usize = 0; // calls of the first run
-    pub static mut NO: usize = 0; // calls of the second run
-    pub static mut SECOND: bool = false; // the stub plays the second run (inverse harness)
-    pub static mut REV: bool = false; // the second run meets the arguments in reverse order
-    pub static mut X0: [u128; 64] = [0; 64];
-    pub static mut X1: [u128; 64] = [0; 64];
-    pub static mut X2: [u128; 64] = [0; 64];
-    pub static mut X3: [u128; 64] = [0; 64];
-    pub static mut Y0: [u128; 64] = [0; 64];
-    pub static mut Y1: [u128; 64] = [0; 64];
-    pub static mut Y2: [u128; 64] = [0; 64];
-    pub static mut Y3: [u128; 64] = [0; 64];
-    pub unsafe fn xset(i: usize, v: u128) {
-        match i / 64 {
-            0 => X0[i % 64] = v,
-            1 => X1[i % 64] = v,
-            2 => X2[i % 64] = v,
-            _ => X3[i % 64] = v,
-        }
-    }
-    pub unsafe fn xget(i: usize) -> u128 {
-        match i / 64 {
-            0 => X0[i % 64],
-            1 => X1[i % 64],
-            2 => X2[i % 64],
-            _ => X3[i % 64],
-        }
-    }
-    pub unsafe fn yset(i: usize, v: u128) {
-        match i / 64 {
-            0 => Y0[i % 64] = v,
-            1 => Y1[i % 64] = v,
-            2 => Y2[i % 64] = v,
-            _ => Y3[i % 64] = v,
-        }
-    }
-    pub unsafe fn yget(i: usize) -> u128 {
-        match i / 64 {
-            0 => Y0[i % 64],
-            1 => Y1[i % 64],
-            2 => Y2[i % 64],
-            _ => Y3[i % 64],
-        }
-    }
-    pub fn first(x: u128) -> u128 {
-        unsafe {
-            let i = NI;
-            kani::assert(i < 256, "VERIF_LOCKSTEP_CAPACITY");
-            xset(i, x);
-            NI = i + 1;
-            yget(i)
-        }
-    }
-    pub fn second(x: u128) -> u128 {
-        unsafe {
-            let j = NO;
-            kani::assert(j < NI, "VERIF_LOCKSTEP_COUNT");
-            let i = if REV { NI - 1 - j } else { j };
-            kani::assert(x == xget(i), "VERIF_LOCKSTEP_ARG");
-            NO = j + 1;
-            yget(i)
-        }
-    }
-}
-
-/// Load the fresh results Y[0..cnt] from the harness input (16 octets each, from offset `off`).
-fn ls_init(inp: &[u8], off: usize, cnt: usize) {
-    #[cfg(kani)]
-    unsafe {
-        let mut i = 0;
-        while i < cnt {
-            ls::yset(i, take_u128(inp, off + 16 * i));
-            i += 1;
-        }
-    }
-}
-fn ls_second(rev: bool, stub_is_second: bool) {
-    #[cfg(kani)]
-    unsafe {
-        ls::REV = rev;
-        ls::SECOND = stub_is_second;
-    }
-}
-fn ls_balanced() -> bool {
-    #[cfg(kani)]
-    unsafe {
-        return ls::NI == ls::NO;
-    }
-    #[cfg(not(kani))]
-    true
-}
-pub fn stub_raw_ls(x: [u32; 4], key: &[u32; 8]) -> [u32; 4] {
-    let xv = (x[0] as u128) | ((x[1] as u128) << 32) | ((x[2] as u128) << 64) | ((x[3] as u128) << 96);
-    #[cfg(kani)]
-    let v = {
-        let k = unsafe { WKEY };
-        kani::assert(*key == k, "VERIF_SAME_KEY");
-        if unsafe { ls::SECOND } {
-            ls::second(xv)
-        } else {
-            ls::first(xv)
-        }
-    };
-    #[cfg(not(kani))]
-    let v = conc_e(xv);
-    [v as u32, (v >> 32) as u32, (v >> 64) as u32, (v >> 96) as u32]
-}
-/// E for the oracle: the second run, forwards.
-fn oe_ls(b: &[u8; 16]) -> [u8; 16] {
-    #[cfg(kani)]
-    let v = ls::second(u128::from_le_bytes(*b));
-    #[cfg(not(kani))]
-    let v = conc_e(u128::from_le_bytes(*b));
-    v.to_le_bytes()
-}
-
-/// inp = key (32) | data (L) | Y (16 * 2n); constant length L.
-fn conf_long<const L: usize>(inp: &[u8], dec: bool) -> Option<bool> {
+fn conf_len<const M: usize>(inp: &[u8], len: usize, dec: bool) -> Option<bool> {
     let key = key_of(inp);
-    let data: [u8; L] = take(inp, 32);
-    ls_init(inp, 32 + L, 2 * ((L + 15) / 16));
-    let mut buf = data;
-    let res = if dec { belt_wblock_dec(&mut buf, &key) } else { belt_wblock_enc(&mut buf, &key) };
-    vcheck!(res.is_ok());
-    ls_second(false, false);
-    let e = if dec { r::wblock_dec_with(&data, L, oe_ls) } else { r::wblock_enc_with(&data, L, oe_ls) };
-    vcheck!(ls_balanced());
-    match e {
-        Some(e) => Some(buf == e),
-        None => Some(false),
-    }
+    let data: [u8; M] = take(inp, 33);
+    conf_at::<M>(&key, &data, len, dec)
 }
-fn inverse_long<const L: usize>(inp: &[u8]) -> Option<bool> {
+fn inverse_len<const M: usize>(inp: &[u8], len: usize, enc_first: bool) -> Option<bool> {
     let key = key_of(inp);
-    let data: [u8; L] = take(inp, 32);
-    ls_init(inp, 32 + L, 2 * ((L + 15) / 16));
-    let mut buf = data;
-    vcheck!(belt_wblock_enc(&mut buf, &key).is_ok());
-    ls_second(true, true);
-    vcheck!(belt_wblock_dec(&mut buf, &key).is_ok());
-    vcheck!(ls_balanced());
-    Some(buf == data)
+    let data: [u8; M] = take(inp, 33);
+    inverse_at::<M>(&key, &data, len, enc_first)
 }
-
-/// Whole number of blocks: the oracle on the explicit list r_1..r_N of 128-bit words (cheap to execute symbolically).
-fn conf_long_words<const N: usize, const L: usize>(inp: &[u8], dec: bool) -> Option<bool> {
-    let key = key_of(inp);
-    let data: [u8; L] = take(inp, 32);
-    ls_init(inp, 32 + L, 2 * N);
-    let mut buf = data;
-    let res = if dec { belt_wblock_dec(&mut buf, &key) } else { belt_wblock_enc(&mut buf, &key) };
-    vcheck!(res.is_ok());
-    ls_second(false, false);
-    let mut w = [0u128; N];
-    let mut i = 0;
-    while i < N {
-        w[i] = take_u128(&data, 16 * i);
-        i += 1;
-    }
-    #[cfg(kani)]
-    let f = |x: u128| ls::second(x);
-    #[cfg(not(kani))]
-    let f = |x: u128| conc_e(x);
-    let e = if dec { r::wblock_dec_words(&w, f) } else { r::wblock_enc_words(&w, f) };
-    vcheck!(ls_balanced());
-    i = 0;
-    while i < N {
-        vcheck!(take_u128(&buf, 16 * i) == e[i]);
-        i += 1;
-    }
-    Some(true)
-}
-
-//@ harness name=wblock_long_enc2048 prop=C18,C20 tier=thorough bits=49408 stub=1 est=1500 desc="W (lockstep): belt_wblock_enc == oracle at len = 2048 (128 blocks, 256 rounds: the round counter reaches 256 and needs its second octet), all keys, all contents; belt-block abstracted call by call (fresh result per call, equal arguments in both runs an obligation)"
+//@ harness name=wblock_enc_l32 prop=C18,C20 tier=quick bits=512 stub=1 est=120 desc="W: belt_wblock_enc(data[..32], key) == oracle belt-wbl at the fixed length 32, all keys, all contents, octets beyond the length untouched; belt-block under the key uninterpreted"
 verif_harness! {
-    name: wblock_long_enc2048,
-    bytes: 32 + 2048 + 4096,
-    unwind: 2060,
-    stubs: [(crate::belt_block_raw, stub_raw_ls)],
-    prop: |inp| { conf_long_words::<128, 2048>(inp, false) }
+    name: wblock_enc_l32,
+    bytes: 33 + 48,
+    unwind: 50,
+    stubs: [(crate::belt_block_raw, stub_raw)],
+    prop: |inp| { conf_len::<48>(inp, 32, false) }
 }
-//@ harness name=wblock_long_dec2048 prop=C18,C20 tier=thorough bits=49408 stub=1 est=1500 desc="W (lockstep): belt_wblock_dec == oracle at len = 2048 (256 rounds), all keys, all contents"
+//@ harness name=wblock_dec_l32 prop=C18,C20 tier=quick bits=512 stub=1 est=120 desc="W: belt_wblock_dec(data[..32], key) == oracle belt-wbl at the fixed length 32, all keys, all contents, octets beyond the length untouched; belt-block under the key uninterpreted"
 verif_harness! {
-    name: wblock_long_dec2048,
-    bytes: 32 + 2048 + 4096,
-    unwind: 2060,
-    stubs: [(crate::belt_block_raw, stub_raw_ls)],
-    prop: |inp| { conf_long_words::<128, 2048>(inp, true) }
+    name: wblock_dec_l32,
+    bytes: 33 + 48,
+    unwind: 50,
+    stubs: [(crate::belt_block_raw, stub_raw)],
+    prop: |inp| { conf_len::<48>(inp, 32, true) }
 }
-//@ harness name=wblock_long_inv2048 prop=C18,C01,C20 tier=thorough bits=49408 stub=1 est=1500 desc="W (lockstep, reverse order): belt_wblock_dec(belt_wblock_enc(x)) == x at len = 2048, all keys, all contents"
+//@ harness name=wblock_enc_l33 prop=C18,C20 tier=quick bits=520 stub=1 est=120 desc="W: belt_wblock_enc(data[..33], key) == oracle belt-wbl at the fixed length 33, all keys, all contents, octets beyond the length untouched; belt-block under the key uninterpreted"
 verif_harness! {
-    name: wblock_long_inv2048,
-    bytes: 32 + 2048 + 4096,
-    unwind: 2060,
-    stubs: [(crate::belt_block_raw, stub_raw_ls)],
-    prop: |inp| { inverse_long::<2048>(inp) }
+    name: wblock_enc_l33,
+    bytes: 33 + 48,
+    unwind: 50,
+    stubs: [(crate::belt_block_raw, stub_raw)],
+    prop: |inp| { conf_len::<48>(inp, 33, false) }
 }
-//@ harness name=wblock_long_enc2033 prop=C18,C20 tier=thorough bits=49288 stub=1 est=1500 desc="W (lockstep): belt_wblock_enc == oracle at len = 2033 (128 blocks, last one of a single octet; 256 rounds), all keys, all contents"
+//@ harness name=wblock_dec_l33 prop=C18,C20 tier=quick bits=520 stub=1 est=120 desc="W: belt_wblock_dec(data[..33], key) == oracle belt-wbl at the fixed length 33, all keys, all contents, octets beyond the length untouched; belt-block under the key uninterpreted"
 verif_harness! {
-    name: wblock_long_enc2033,
-    bytes: 32 + 2033 + 4096,
-    unwind: 2060,
-    stubs: [(crate::belt_block_raw, stub_raw_ls)],
-    prop: |inp| { conf_long::<2033>(inp, false) }
+    name: wblock_dec_l33,
+    bytes: 33 + 48,
+    unwind: 50,
+    stubs: [(crate::belt_block_raw, stub_raw)],
+    prop: |inp| { conf_len::<48>(inp, 33, true) }
 }
-//@ harness name=wblock_long_dec2033 prop=C18,C20 tier=thorough bits=49288 stub=1 est=1500 desc="W (lockstep): belt_wblock_dec == oracle at len = 2033 (256 rounds), all keys, all contents"
+//@ harness name=wblock_enc_l47 prop=C18,C20 tier=quick bits=632 stub=1 est=120 desc="W: belt_wblock_enc(data[..47], key) == oracle belt-wbl at the fixed length 47, all keys, all contents, octets beyond the length untouched; belt-block under the key uninterpreted"
 verif_harness! {
-    name: wblock_long_dec2033,
-    bytes: 32 + 2033 + 4096,
-    unwind: 2060,
-    stubs: [(crate::belt_block_raw, stub_raw_ls)],
-    prop: |inp| { conf_long::<2033>(inp, true) }
+    name: wblock_enc_l47,
+    bytes: 33 + 48,
+    unwind: 50,
+    stubs: [(crate::belt_block_raw, stub_raw)],
+    prop: |inp| { conf_len::<48>(inp, 47, false) }
 }
-//@ harness name=wblock_long_inv2033 prop=C18,C01,C20 tier=thorough bits=49288 stub=1 est=1500 desc="W (lockstep, reverse order): dec(enc(x)) == x at len = 2033, all keys, all contents"
+//@ harness name=wblock_dec_l47 prop=C18,C20 tier=quick bits=632 stub=1 est=120 desc="W: belt_wblock_dec(data[..47], key) == oracle belt-wbl at the fixed length 47, all keys, all contents, octets beyond the length untouched; belt-block under the key uninterpreted"
 verif_harness! {
-    name: wblock_long_inv2033,
-    bytes: 32 + 2033 + 4096,
-    unwind: 2060,
-    stubs: [(crate::belt_block_raw, stub_raw_ls)],
-    prop: |inp| { inverse_long::<2033>(inp) }
+    name: wblock_dec_l47,
+    bytes: 33 + 48,
+    unwind: 50,
+    stubs: [(crate::belt_block_raw, stub_raw)],
+    prop: |inp| { conf_len::<48>(inp, 47, true) }
+}
+//@ harness name=wblock_enc_l48 prop=C18,C20 tier=quick bits=640 stub=1 est=120 desc="W: belt_wblock_enc(data[..48], key) == oracle belt-wbl at the fixed length 48, all keys, all contents, octets beyond the length untouched; belt-block under the key uninterpreted"
+verif_harness! {
+    name: wblock_enc_l48,
+    bytes: 33 + 48,
+    unwind: 50,
+    stubs: [(crate::belt_block_raw, stub_raw)],
+    prop: |inp| { conf_len::<48>(inp, 48, false) }
+}
+//@ harness name=wblock_dec_l48 prop=C18,C20 tier=quick bits=640 stub=1 est=120 desc="W: belt_wblock_dec(data[..48], key) == oracle belt-wbl at the fixed length 48, all keys, all contents, octets beyond the length untouched; belt-block under the key uninterpreted"
+verif_harness! {
+    name: wblock_dec_l48,
+    bytes: 33 + 48,
+    unwind: 50,
+    stubs: [(crate::belt_block_raw, stub_raw)],
+    prop: |inp| { conf_len::<48>(inp, 48, true) }
+}
+//@ harness name=wblock_inv_ed_l33 prop=C18,C01,C20 tier=quick bits=520 stub=1 est=120 desc="W: dec(enc(x)) == x at the fixed length 33, all keys, all contents; belt-block an arbitrary function"
+verif_harness! {
+    name: wblock_inv_ed_l33,
+    bytes: 33 + 48,
+    unwind: 50,
+    stubs: [(crate::belt_block_raw, stub_raw)],
+    prop: |inp| { inverse_len::<48>(inp, 33, true) }
+}
+//@ harness name=wblock_inv_de_l33 prop=C18,C01,C20 tier=quick bits=520 stub=1 est=120 desc="W: enc(dec(x)) == x at the fixed length 33, all keys, all contents; belt-block an arbitrary function"
+verif_harness! {
+    name: wblock_inv_de_l33,
+    bytes: 33 + 48,
+    unwind: 50,
+    stubs: [(crate::belt_block_raw, stub_raw)],
+    prop: |inp| { inverse_len::<48>(inp, 33, false) }
+}
+//@ harness name=wblock_inv_ed_l48 prop=C18,C01,C20 tier=quick bits=640 stub=1 est=120 desc="W: dec(enc(x)) == x at the fixed length 48, all keys, all contents; belt-block an arbitrary function"
+verif_harness! {
+    name: wblock_inv_ed_l48,
+    bytes: 33 + 48,
+    unwind: 50,
+    stubs: [(crate::belt_block_raw, stub_raw)],
+    prop: |inp| { inverse_len::<48>(inp, 48, true) }
+}
+//@ harness name=wblock_inv_de_l48 prop=C18,C01,C20 tier=quick bits=640 stub=1 est=120 desc="W: enc(dec(x)) == x at the fixed length 48, all keys, all contents; belt-block an arbitrary function"
+verif_harness! {
+    name: wblock_inv_de_l48,
+    bytes: 33 + 48,
+    unwind: 50,
+    stubs: [(crate::belt_block_raw, stub_raw)],
+    prop: |inp| { inverse_len::<48>(inp, 48, false) }
 }
